@@ -56,7 +56,8 @@ S(name, nt, stop, kinds) == [name |-> name, nt |-> nt, stop |-> stop, kinds |-> 
 Both == {"str", "Path"}
 LibSites == { S("lib_write_tum", 1, TRUE, Both), S("lib_write_kitti", 1, TRUE, Both), S("lib_save_res", 1, TRUE, Both),
               S("lib_save_table", 1, TRUE, Both), S("lib_export_pdf", 1, TRUE, {"str"}),
-              S("lib_export_png", 2, TRUE, {"str"}), S("lib_serialize", 1, TRUE, {"str"}) }
+              S("lib_export_png", 2, TRUE, {"str"}), S("lib_serialize", 1, TRUE, {"str"}),
+              S("lib_export_noext", 2, TRUE, {"str"}) }      \* a plot name without extension: the targets are the files matplotlib writes (<name>_<fig>.png)
 CliSitesQuick == { S("ape_save_results", 1, TRUE, {"str"}), S("rpe_save_plot_png", 2, TRUE, {"str"}),
                    S("traj_save_as_tum", 2, FALSE, {"str"}), S("res_save_table", 1, TRUE, {"str"}),
                    S("config_generate_out", 1, TRUE, {"str"}), S("traj_serialize_plot", 1, TRUE, {"str"}) }
@@ -67,7 +68,7 @@ CliSitesAll == CliSitesQuick \cup
                    S("traj_save_as_kitti", 2, FALSE, {"str"}), S("traj_save_plot_png", 4, TRUE, {"str"}),
                    S("traj_save_plot_pdf", 1, TRUE, {"str"}), S("traj_save_table", 1, TRUE, {"str"}),
                    S("res_save_plot_pdf", 1, TRUE, {"str"}), S("res_save_plot_png", 5, TRUE, {"str"}),
-                   S("res_serialize_plot", 1, TRUE, {"str"}) }
+                   S("res_serialize_plot", 1, TRUE, {"str"}), S("ape_save_plot_noext", 2, TRUE, {"str"}) }
 QuickSites == LibSites \cup CliSitesQuick
 AllSites == LibSites \cup CliSitesAll
 AnswersAll == {"y", "n", "", "Y", "yes", " y"}
